@@ -10,7 +10,7 @@ PROP = "C16"
 ASSUMPTIONS = [
     "the universe is finite: boundary values of every width/length class plus seeded random ones; TLC compares every ordered pair of same-shape tuples in it",
     "strings of format 1 are valid UTF-8 (the element type is String); raw byte strings exist in format 2 only",
-    "the derive macros (tuple_key_derive) are not exercised: tuples are built with extend_with_key / the builder",
+    "tuple_key_derive is exercised through one derived type (ascending u64, descending string with the marker above the field number, descending i64 with it below, unit); everything else is built with extend_with_key / the builder",
     "decoding arbitrary bytes: truncations, bit flips, byte overwrites and random strings derived from valid encodings, decoded with the tuple's own type sequence",
 ]
 
@@ -98,6 +98,11 @@ def universe(rng, thorough):
     for bs in BYTES[:8]:
         for n in u6[:3]:
             add([(1, "F", "bytes", bs), (2, "F", "u64", n)])
+    # the shape of the harness's derived typed key (#[derive(TypedTupleKey)]): u64 asc, string desc, i64 desc, unit
+    for a in u6[:3]:
+        for sv in s6[:4]:
+            for n in i6[1:4]:
+                add([(1, "F", "u64", a), (2, "R", "string", sv), (3, "R", "i64", n), (4, "F", "unit", None)])
     # a prefix tuple and its extensions (contiguity): unit-tagged path elements as lsmtk-style keys use them
     for s in s6:
         add([(1, "F", "string", s), (2, "F", "unit", None)])
